@@ -169,5 +169,8 @@ def honest_suite(seed, tier):
         po = rng.choice(list(nonempty_subsets(n)))
         add_group(f"ands{a}.n{n}", and_chain(n, a), pe, po, mixed=(a >= 1000))
     if not quick:
-        add_group("ands1001.n3", and_chain(3, 1001), 2, [0, 1], mixed=True)
+        # (distinct name: the loop above may already have produced a group "ands1001.n3")
+        add_group("ands1001.n3.pe2", and_chain(3, 1001), 2, [0, 1], mixed=True)
+    ids = [j["id"] for g in groups for j in g]
+    assert len(ids) == len(set(ids)), "duplicate job ids"
     return groups
